@@ -72,6 +72,34 @@ P["C18"] = dict(
     ref="DESIGN.md section 3, C18",
 )
 
+P["C01"] = dict(
+    text="Skeleton of the four mechanisms behind exclusive hand-out, decided for all paths and all region values symbolically: init pipeline order and "
+         "publication after success, availability guard on every visitor store, identical inward rounding at the three region-to-frame sites "
+         "(polynomial normal forms with cdiv/fdiv atoms) and outward rounding of the kernel range, allocation returns exactly the frame whose bit it "
+         "tested and set with the same bit encoding as mark/free, bits cleared only by free/mark, allocator variable ownership. Histories (who holds "
+         "which frame over time) and pool-boundary arithmetic for a kernel spanning pools are not decided.",
+    technique="SSA dominance + must-pass-through ordering + polynomial/rounding normal forms + writers-of",
+    ref="DESIGN.md section 3, C01",
+)
+
+P["C02"] = dict(
+    text="Early allocator: success only for available regions of at least a page with inward rounding, success re-checks the cursor against the "
+         "region end after every update, failure returns the out-of-memory error, the frame condition that makes replay exact (write set = "
+         "{allocCount, lastAllocFrame}, read set closed, replay zeroes exactly that set after loading the bound), and the three admissible cursor "
+         "updates. Strict monotonicity and the kernel-jump case analysis are relational and not decided.",
+    technique="read/write-set (frame condition) analysis + SSA dominance cuts + polynomial normal forms",
+    ref="DESIGN.md section 3, C02",
+)
+
+P["C03"] = dict(
+    text="Accounting structure: bitmap capacity, free counter, totals and both reservation passes are the same symbolic frame count n (found and "
+         "fixed F1, where they were n-1), free's error contract (guards dominate every store, distinct errors, nothing modified before a rejection), "
+         "every bit change paired with exactly one update of each counter on every path, and error propagation of every *kernel.Error call result "
+         "in the init chain. 'Never crashes' in general and counts over histories are not decided.",
+    technique="polynomial/rounding normal forms (symbolic sizes) + SSA dominance + path pairing",
+    ref="DESIGN.md section 3, C03",
+)
+
 ALL = ["C%02d" % i for i in range(1, 21)]
 
 def main():
